@@ -11,6 +11,10 @@
 (*              name (the name bytes),                                     *)
 (*              fields of block b    csize | usize | count | crc | flags,  *)
 (*              payload (of block b),                                      *)
+(*              reforge (block b rebuilt CONSISTENTLY - sizes and checksum *)
+(*                recomputed - around a malformed entry stream: the stream *)
+(*                cut inside a record, or a length field inside it forged  *)
+(*                beyond the stream),                                      *)
 (*              cuts (everything behind is gone)                           *)
 (*                cutfh (inside the file header)  cutname (inside the name)*)
 (*                cutstart (before block b)  cuthdr (inside b's header)    *)
@@ -20,7 +24,8 @@
 (*              garbage (the whole file is random bytes),                  *)
 (*              dup (block b once more at the end)  swap (b and b+1)       *)
 (*   v  variant: version: "other" | "flip" (2<->3);  count: "less"|"more"; *)
-(*               csize: "big" | "any";  otherwise "any"                    *)
+(*               csize: "big" | "any";  reforge: "cutstream" | "biglen";    *)
+(*               otherwise "any"                                           *)
 (*                                                                         *)
 (* Read(c) is the design-level reader evaluated on the damaged image,      *)
 (* block by block like readNextBlock/ParseBlock/LoadIndex, and yields the  *)
@@ -44,20 +49,21 @@ Shapes == [n : 0..MaxBlocks, ver : {2, 3}, named : BOOLEAN]
 Sound == {"err", "full", "subset"}
 
 FileFields == {"magic", "version", "ignored", "namelen", "name"}
-BlockFields == {"csize", "usize", "count", "crc", "flags", "payload"}
+BlockFields == {"csize", "usize", "count", "crc", "flags", "payload", "reforge"}
 BlockCuts == {"cutstart", "cuthdr", "cuthdrend", "cutpay"}
 Cuts == {"cutfh", "cutname"} \cup BlockCuts
 
 Variants(w) == CASE w = "version" -> {"other", "flip"}
                  [] w = "count" -> {"less", "more"}
                  [] w = "csize" -> {"big", "any"}
+                 [] w = "reforge" -> {"cutstream", "biglen"}
                  [] OTHER -> {"any"}
 
 \* the single damages that make sense for a shape
 Damages(s) ==
      {[w |-> w, b |-> 0, v |-> v] : w \in {"magic", "version", "ignored", "namelen"}, v \in {"other", "flip", "any"}}
   \cup (IF s.named /\ s.ver = 3 THEN {[w |-> "name", b |-> 0, v |-> "any"], [w |-> "cutname", b |-> 0, v |-> "any"]} ELSE {})
-  \cup {[w |-> w, b |-> b, v |-> v] : w \in BlockFields \cup BlockCuts, b \in 1..s.n, v \in {"less", "more", "big", "any"}}
+  \cup {[w |-> w, b |-> b, v |-> v] : w \in BlockFields \cup BlockCuts, b \in 1..s.n, v \in {"less", "more", "big", "any", "cutstream", "biglen"}}
   \cup {[w |-> w, b |-> 0, v |-> "any"] : w \in {"cutfh", "appendshort", "appendlong", "garbage"}}
   \cup {[w |-> "dup", b |-> b, v |-> "any"] : b \in 1..s.n}
   \cup {[w |-> "swap", b |-> b, v |-> "any"] : b \in 1..(s.n - 1)}
@@ -88,7 +94,7 @@ Presence(c, b) ==
   ELSE IF HasB(c, "cutpay", b) THEN "paypart"
   ELSE "full"
 
-HdrDamaged(c, b) == \E w \in {"csize", "usize", "count", "crc", "flags"} : HasB(c, w, b)
+HdrDamaged(c, b) == \E w \in {"csize", "usize", "count", "crc", "flags", "reforge"} : HasB(c, w, b)
 \* the block parser starts at the wrong offset
 Misaligned(c) == Has(c, "namelen") \/ (\E d \in DS(c) : d.w = "version" /\ d.v = "flip" /\ c.s.named /\ c.s.ver = 3)
 HeaderRefused(c) == Has(c, "garbage") \/ Has(c, "cutfh") \/ Has(c, "cutname") \/ Has(c, "magic")
@@ -104,8 +110,8 @@ Step(c, st, b) ==
          [] p = "paypart" -> <<"err", st[2]>>           \* unexpected EOF inside the payload
          [] OTHER ->
               IF \/ HasB(c, "csize", b) \/ HasB(c, "usize", b) \/ HasB(c, "crc", b) \/ HasB(c, "payload", b)
-                 \/ HasV(c, "count", b, "more")
-              THEN <<"err", st[2]>>                     \* size / checksum / length mismatch
+                 \/ HasV(c, "count", b, "more") \/ HasB(c, "reforge", b)
+              THEN <<"err", st[2]>>                     \* size / checksum / length mismatch / malformed entry
               ELSE IF HasV(c, "count", b, "less") THEN <<"go", TRUE>>   \* trailing entries of the block are not parsed
               ELSE st
 Blocks(c) ==
@@ -121,9 +127,12 @@ Read(c) ==
   ELSE LET r == Blocks(c)
            lossy == r[2] \/ Has(c, "dup") \/ Has(c, "swap")
            maps == IF lossy THEN {"subset", "full"} ELSE {"full"}
+           tail == Has(c, "appendshort") \/ Has(c, "appendlong")
        IN CASE r[1] = "err" -> {"err"}
             [] r[1] = "any" -> Sound
-            [] OTHER -> maps \cup (IF Has(c, "appendlong") /\ r[1] = "go" THEN {"err"} ELSE {})
+            \* bytes appended behind a cut continue the cut block: whatever they are parsed as
+            [] r[1] = "stop" /\ tail -> Sound
+            [] OTHER -> maps \cup (IF Has(c, "appendlong") THEN {"err"} ELSE {})
                              \cup (IF Harmless(c) THEN {"err"} ELSE {})
 
 \* does the reader parse a block header out of bytes that are not an intact header at its place?
@@ -131,7 +140,8 @@ ParsesForeignHeader(c) ==
   /\ ~HeaderRefused(c)
   /\ \/ Misaligned(c)
      \/ \E b \in 1..c.s.n : HasB(c, "csize", b) /\ Presence(c, b) \in {"full", "hdronly", "paypart"}
-     \/ (Has(c, "appendlong") /\ Blocks(c)[1] = "go")
+     \/ (Has(c, "appendlong") /\ Blocks(c)[1] \in {"go", "stop"})
+     \/ (Has(c, "appendshort") /\ Blocks(c)[1] = "stop")
 Cost(c) == IF "ForgedSizeAlloc" \in Dev /\ ParsesForeignHeader(c) THEN {"ok", "huge"} ELSE {"ok"}
 
 -----------------------------------------------------------------------------
